@@ -4,6 +4,7 @@ import Driver.SValJson
 import Driver.ArrJson
 import Driver.Suites.Build
 import SaModel.Backend.Adapters
+import SaModel.Backend.BuildCore
 import SaModel.Build.Finish
 import SaModel.Spec.Decode
 import SaModel.Spec.Interp
@@ -91,12 +92,8 @@ def wireConv (backend : String) : Conv Field Arr where
   viewOf := pure
 
 /-- the builder model as the back-end independent core; readers answer from the recorded `from_marrow` results -/
-def coreOf (ext : Ext) (oracle : List (List Arr × Json)) : Core B (List SVal) (List Arr) Json where
-  newOuter := newRoot
-  serialize := fun b rows => rows.foldlM (push ext) b
-  takeArrays := buildArrays ext
-  deserializerNew := fun _ views => .ok views
-  deserialize := fun views =>
+def coreOf (ext : Ext) (oracle : List (List Arr × Json)) : Core B (List SVal) (List Arr) Json :=
+  buildCore ext (fun _ views => .ok views) fun views =>
     match oracle.find? (fun e => e.1 == views) with
     | some (_, out) => .ok out
     | none => fail "no recorded from_marrow result for these views"
